@@ -317,4 +317,5 @@ def main():
     os.write(OUT_FD, (json.dumps({'c02': 1, 'results': out}) + '\n').encode())
 
 
-main()
+if __name__ == "__main__":
+    main()
